@@ -495,7 +495,9 @@ NAME_POOL = ['.text', '.data', '.bss', '.rodata', '.symtab', '.strtab', '.shstrt
              '.rel.dyn', '.note.gnu.build-id', '.stab', '.stab', '.debug_info', '.a', 'a', '.ARM.attributes',
              # neighbours of the one name that selects a class (.stab): longer, shorter, other case, other prefix - plain sections all
              '.stable', '.stab_like', '.stabilizer.rodata', '.sta', '.STAB', 'x.stab', '.stabs', '.stabstr',
-             '.gnu.version', '.comment', '.text.startup', 'startup', 'été', '.中文', 'x' * 70, '.init_array', '']
+             '.gnu.version', '.comment', '.text.startup', 'startup', 'été', '.中文', 'x' * 70, '.init_array', '',
+             # names beyond every plausible read size (-ffunction-sections with mangled C++ names): 4095, 4096, 4097 and 70 000 bytes
+             '.text._ZN' + 'a' * 4086, '.text._ZN' + 'b' * 4087, '.text._ZN' + 'c' * 4088, '.text.' + 'long_' * 14000]
 
 
 def _sym_bytes(cls, le, n):
